@@ -150,16 +150,31 @@ func edCheckC08(work bool, file string, ops []edOp) (sig, info string) {
 	// directives of the strict re-parse = prediction, as multisets, per collection
 	want := strings.Fields(abs.render(true))
 	got := strings.Fields(run.Reparsed.render(true))
+	typed := strings.Fields(run.Typed.render(true))
 	names := []string{"module", "go", "toolchain"}
 	names = append(names, edKindName[:]...)
-	for i := range want {
-		if want[i] != got[i] {
-			name := names[i]
-			if name == "retract" {
-				name = edRetractDetail(abs.edDirs, run.Reparsed)
-			}
-			return "c08-directives:" + name, "predicted " + want[i] + " reparsed " + got[i]
+	knownSig, knownInfo := "", ""
+	defer func() {
+		if sig == "" {
+			sig, info = knownSig, knownInfo
 		}
+	}()
+	for i := range want {
+		if want[i] == got[i] {
+			continue
+		}
+		name := names[i]
+		if name == "retract" && want[i] == typed[i] {
+			// the prediction agrees with the typed list, so the difference is typed-vs-reparse: name its cause
+			if d := edRetractDetail(run); d != "" {
+				name = d
+			}
+		}
+		s, inf := "c08-directives:"+name, "predicted "+want[i]+" reparsed "+got[i]
+		if !edKnownCause(s) {
+			return s, inf
+		}
+		knownSig, knownInfo = s, inf
 	}
 	// untouched lines survive with tokens + Before + Suffix comments
 	var fin, re []edLineRec
